@@ -80,6 +80,10 @@ type scen struct {
 	// TicketDrop k > 0: the k-th datagram the server emits from the moment its handshake call returns (its
 	// NewSessionTicket, fragmented when the MTU is small) is lost once; retransmissions are delivered
 	TicketDrop int
+	// NoSettle (with TicketDrop): the operations start as soon as both handshake calls have returned, while the
+	// lost NewSessionTicket datagram has not been retransmitted yet: the ticket flight is still unacknowledged
+	// when the first key update starts (without it the association is run to full quiescence first)
+	NoSettle bool
 }
 
 func (s scen) id() string {
@@ -95,6 +99,9 @@ func (s scen) id() string {
 	}
 	if s.TicketDrop > 0 {
 		id += fmt.Sprintf("/ticket-datagram-%d-lost", s.TicketDrop)
+	}
+	if s.NoSettle {
+		id += "-still-pending"
 	}
 	return id
 }
@@ -530,7 +537,16 @@ func (x *exec) setup(p *world.PKI) error {
 				first = v
 			}
 		}
-		n0.AddFault(false, app[x.sc.TicketDrop-1], world.ActDrop)
+		if x.sc.NoSettle {
+			// lose it right here: the data phase has its own delivery policy
+			for _, d := range x.w.InFlight() {
+				if d.Src == world.ServerAddr && d.Dir == app[x.sc.TicketDrop-1] {
+					x.w.Take(d)
+				}
+			}
+		} else {
+			n0.AddFault(false, app[x.sc.TicketDrop-1], world.ActDrop)
+		}
 		_ = first
 		if x.w.Verbose {
 			for _, d := range x.w.InFlight() {
@@ -545,7 +561,7 @@ func (x *exec) setup(p *world.PKI) error {
 	} else if err != nil || !pr.BothOK() {
 		return fmt.Errorf("handshake failed: pump=%v client=%v server=%v", err, pr.C.HS, pr.S.HS)
 	}
-	for round := 0; ; round++ {
+	for round := 0; !x.sc.NoSettle; round++ {
 		before := x.w.EmittedCount()
 		_ = n0.Pump(quietRound, nil)
 		if x.w.EmittedCount() == before && x.w.Head() == nil {
